@@ -5,7 +5,7 @@ import json, os, sys
 
 VERIF = os.path.dirname(os.path.dirname(os.path.abspath(__file__)))
 
-IMPLEMENTED = ["C01"]
+IMPLEMENTED = ["C01", "C02", "C04", "C05", "C06", "C07", "C08", "C09", "C14", "C15"]
 
 HOOK_COMMITS = []
 
@@ -14,6 +14,42 @@ CHECKS = {
    technique="deterministic simulation: seeded (rapid) search over writer call sequences x configurations x benign delivery schedules against a reference model; replayable JSON scenarios",
    text="Seeded search over legal writer call sequences, all writer configurations (incl. custom codecs, 2^10 flag combinations, SkipMagic) and benign read-fragmentation schedules; the real Writer runs into a simulated sink and the real Lexer and non-indexed iterator read back from a simulated source; every field of every record is compared with a reference model, retained values are re-compared after the read. Evidence, not proof: a clean batch samples the space.",
    note="Trusted: the reference model (model.FromWorkload), the harness comparison code, rapid v1.3.0 as choice source. Custom codecs and SkipMagic files are read back through the lexer only."),
+ "C02": dict(level="exploration", design="DESIGN.md §4 C02",
+   technique="deterministic simulation: seeded search over workloads x configurations; indexed vs sequential reads of the same simulated image compared element-wise; random access through every index entry",
+   text="For every generated file the index-based read (3 orders) is compared with the sequential scan (itself compared with the model): element-wise equality where the summary carries chunk indexes + repeated schemas/channels, otherwise equal-or-error and never a clean EOF with fewer messages (silent_loss). Every attachment/metadata index entry is dereferenced and compared with what was written; metadata callbacks are checked on both paths. Samples the space; not a proof.",
+   note="Trusted: reference model, harness comparison. Files in which no channel was written are treated under the fall-back-or-error clause (their summary cannot express 'no messages')."),
+ "C04": dict(level="exploration", design="DESIGN.md §4 C04",
+   technique="deterministic simulation: seeded search over files x topic sets x windows (corners from the file's own message times) x option spellings x reader modes; oracle filter(model)",
+   text="Topic sets and [start,end) windows with boundaries on message times, 0 and 2^64-1 are expressed through every option spelling (nanosecond and deprecated, either order, one-sided) and read by the scan and by the indexed iterator in 3 orders under benign delivery schedules; the result must be exactly filter(model). Samples the space.",
+   note="Trusted: reference model Select(); deprecated int64 options exercised with values 0..2^63-1."),
+ "C05": dict(level="exploration", design="DESIGN.md §4 C05",
+   technique="deterministic simulation: every image the real writer produces in the simulated sink is validated by an independent spec-derived decoder (refmcap) - grammar and every pointer",
+   text="Every image produced by seeded workloads x configurations is decoded by refmcap (written from the spec, no shared code with go/mcap, pinned by the 416 conformance vectors) and every pointer - chunk index, message index entry and offsets, attachment/metadata index, summary offset, footer, chunk header sizes and times - is compared with the bytes it designates; the sink journal shows output is append-only. Samples the space.",
+   note="Trusted: refmcap decoder/validator (pinned by selftest against Git-LFS sha256 of all conformance binaries), zstd/lz4 libraries."),
+ "C06": dict(level="exploration", design="DESIGN.md §4 C06",
+   technique="deterministic simulation: CRCs of every produced image recomputed from the file bytes over the spec's ranges by refmcap",
+   text="Data-section, summary, per-chunk and per-attachment CRC-32 of every generated image are recomputed from the bytes over exactly the ranges the spec defines and compared with the stored fields; with checksums disabled the three file/chunk fields must be 0 while attachment CRCs stay correct. Samples the space.",
+   note="Trusted: refmcap, hash/crc32. A true CRC of 0 is indistinguishable from 'not available'."),
+ "C07": dict(level="fault_enumeration", design="DESIGN.md §4 C07",
+   technique="deterministic simulation with stored-byte fault injection: exhaustive single-bit flips (plus seeded overwrites/swaps) over every chunk payload and attachment of each generated file; oracle prefix-then-report",
+   text="For each generated checksummed file every single-bit flip of every stored chunk-payload byte and every attachment body byte is applied to the stored image and read back with validation (error mode and invalid-chunk-token mode): records before the report must be original, the report must come before any record of the damaged chunk, an unreported flip must leave the stream identical (never accepted for uncompressed chunks), attachments must not surface altered content with agreeing CRCs. The fault dimension is exhaustive per file; files are sampled.",
+   note="Trusted: harness oracle, refmcap FileMap for fault placement. errors.Is(err, io.EOF) is treated as end-of-file because the library's own Range helper does."),
+ "C08": dict(level="exploration", design="DESIGN.md §4 C08",
+   technique="deterministic simulation: seeded search biased to time corner cases; writer statistics, statistics record (refmcap) and Reader.Info compared with model aggregates",
+   text="Writer.Statistics after Close, the statistics record as decoded by refmcap and Reader.Info are compared with the model's true aggregates (counts, per-channel counts, earliest/latest log time) on workloads biased to log time 0, descending times across chunks, message-less chunks, channels without messages and re-written records; Info's listings are compared with refmcap's decode of the same summary. Samples the space.",
+   note="Trusted: reference model, refmcap. Chunk count ground truth = chunk records decoded by refmcap."),
+ "C09": dict(level="fault_enumeration", design="DESIGN.md §4 C09",
+   technique="deterministic simulation with crash injection: every truncation point 0..len-1 of each generated file (= every crash point of an append-only sink), three sequential reader modes; oracle prefix + completeness",
+   text="Each generated file is cut at EVERY byte and read through the lexer (CRC validation off and on) and the non-indexed iterator under a drawn delivery policy: the records must be an element-wise prefix of the uncut read (a cut attachment may surface with fewer data bytes), the read must end with EOF or an error without panic or hang, and every message of every completely written chunk/record must be returned. Crash points are exhaustive per file; files are sampled.",
+   note="Trusted: harness oracle, refmcap record boundaries; append-only output is checked by C05."),
+ "C14": dict(level="fault_enumeration", design="DESIGN.md §4 C14",
+   technique="deterministic simulation with sink fault injection: every destination write call k of each workload failed as error/short write x transient/permanent; every attachment source failing at every byte",
+   text="For each generated workload the fault-free run gives N destination writes; every k<N is then failed (error with 0 bytes, short count with ErrShortWrite, short count with ENOSPC; transient and permanent) while the caller keeps calling: the API call in flight must return non-nil, nothing may panic or hang, accepted bytes must be a prefix of the fault-free output. Attachment sources fail after j bytes / end early / deliver extra for every j. Write calls are exhaustive per workload; workloads are sampled.",
+   note="Trusted: sink journal tagging of the API call in flight. A short count with nil error is not injected (violates io.Writer)."),
+ "C15": dict(level="fault_enumeration", design="DESIGN.md §4 C15",
+   technique="deterministic simulation with read fault injection and owned delivery schedules: unreadable byte at every position, error on every seek call, five benign fragmentation policies; six reader modes",
+   text="Each generated file is read under five benign delivery policies (result incl. terminal condition must not change) and with an unreadable byte at EVERY position (three error-delivery variants) and an error on EVERY seek call, through the lexer (validation off/on), the scan iterator and the indexed iterator in 3 orders: records must be a prefix of the fault-free result and, whenever the source actually returned the error to the library, the read must end with a non-EOF error. Positions are exhaustive per file; files are sampled.",
+   note="Trusted: simulated source (delivery sizes are a hash of offset, so zstd's reader goroutine cannot change them). A one-shot error returned together with enough bytes is not injected because io.ReadFull itself discards it."),
 }
 
 NOT_APPLICABLE = {
